@@ -41,7 +41,17 @@ def ctor_env(made=None):
             if made is not None: made.append(e)
             return e
         return pyeval.PyFn(ctor)
-    return {k: mk(k) for k in ("Sequence", "OrderedChoice", "OneOrMore", "ZeroOrMore", "Optional", "UnorderedGroup", "Not", "And")}
+    def mkmatch(kind):
+        def ctor(to_match, rule_name="", root=False, ignore_case=None, **kw):
+            e = {".kind": kind, ".nodes": [], ".rule_name": rule_name, ".root": root, ".suppress": False, ".made_by_code": True, ".to_match": to_match, ".ignore_case": ignore_case, ".__class__": type_of(kind)}
+            if kind == "RegExMatch": e.update({".to_match_regex": to_match, ".str_repr": kw.pop("str_repr", None), ".compiled": 0}); e[".compile"] = pyeval.PyFn(lambda e=e: e.__setitem__(".compiled", e[".compiled"] + 1))
+            for k_, v_ in kw.items(): e["." + k_] = v_
+            if made is not None: made.append(e)
+            return e
+        return pyeval.PyFn(ctor)
+    d = {k: mk(k) for k in ("Sequence", "OrderedChoice", "OneOrMore", "ZeroOrMore", "Optional", "UnorderedGroup", "Not", "And")}
+    d.update({k: mkmatch(k) for k in ("StrMatch", "RegExMatch")})
+    return d
 class HS(dict):
     """sample object compared and hashed by identity (usable in sets and as dict key, like the objects it stands for)"""
     __hash__ = object.__hash__
@@ -75,6 +85,6 @@ def E(kind, *nodes, rule_name="", root=False, **kw):
     return e
 def asgn(op, attr, rhs=None):
     """assignment node as visit_assignment leaves it: op in plain / optional / oneormore / zeroormore"""
-    return E("Sequence", rhs if rhs is not None else E("RegExMatch", rule_name="INT"), rule_name="__asgn_" + op, _attr_name=attr, _exp_str=attr)
+    return E("Sequence", rhs if rhs is not None else E("RegExMatch", rule_name="INT", to_match="[-+]?[0-9]+\\b", to_match_regex="[-+]?[0-9]+\\b", ignore_case=False, str_repr=None), rule_name="__asgn_" + op, _attr_name=attr, _exp_str=attr)
 def match(name="kw"): return E("StrMatch", rule_name="", to_match=name)
 def ruleref(name): return {".kind": "RuleCrossRef", ".rule_name": name, ".suppress": False, ".position": 0}
